@@ -480,3 +480,59 @@ Section Sound.
       + intros [x [Hx Ht]]. apply (Hs x Hx) in Ht. destruct s; [destruct Ht | reflexivity].
   Qed.
 End Sound.
+
+(* ------------------------------------------------------------------ bridge to the run-time tie *)
+Lemma leafkind_eqb_eq a b : leafkind_eqb a b = true -> a = b.
+Proof. destruct a, b; cbn; intros H; try discriminate; reflexivity. Qed.
+
+Lemma find_leaf_spec ls k a v idx r :
+  find_leaf ls k a v idx = Some r -> In r ls /\ lr_k r = k /\ lr_a r = a /\ lr_v r = v.
+Proof.
+  induction ls as [|r0 t IH]; cbn [find_leaf]; [discriminate|].
+  unfold key_eqb. destruct (leafkind_eqb (lr_k r0) k && (lr_a r0 =? a) && (lr_v r0 =? v) && Bool.eqb (lr_idx r0) idx) eqn:E.
+  - intros [= <-]. apply andb_true_iff in E as [E _]. apply andb_true_iff in E as [E Ev].
+    apply andb_true_iff in E as [Ek Ea]. apply leafkind_eqb_eq in Ek. apply N.eqb_eq in Ea. apply N.eqb_eq in Ev.
+    repeat split; auto. left; reflexivity.
+  - intros H. destruct (IH H) as (Hin & H1). split; [right; exact Hin | exact H1].
+Qed.
+
+Lemma leaves_ok_sound univ ls :
+  forallb (leaf_ok univ ls) ls = true ->
+  forall k a v s, sound univ (fun x => sem_of ls x k a v) (orc_of ls k a v s).
+Proof.
+  intros Hall k a v s. unfold orc_of. destruct (find_leaf ls k a v (is_some s)) as [r|] eqn:E; [|exact I].
+  apply find_leaf_spec in E as (Hin & Hk & Ha & Hv).
+  rewrite forallb_forall in Hall. specialize (Hall r Hin). unfold leaf_ok in Hall.
+  apply andb_true_iff in Hall as [_ Hall]. rewrite Hk, Ha, Hv in Hall.
+  destruct (lr_idl r) as [|t|t|t]; cbn; try exact I.
+  - intros x Hx Ht. rewrite forallb_forall in Hall. specialize (Hall x Hx). rewrite Ht in Hall.
+    apply mem_In. exact Hall.
+  - intros x Hx Ht. rewrite forallb_forall in Hall. specialize (Hall x Hx). rewrite Ht in Hall.
+    apply mem_In. exact Hall.
+  - intros x Hx. rewrite forallb_forall in Hall. specialize (Hall x Hx).
+    apply eqb_prop in Hall. rewrite <- Hall. apply iff_sym, mem_In.
+Qed.
+
+Lemma set_eqb_spec a b : set_eqb a b = true <-> (forall x, In x a <-> In x b).
+Proof.
+  unfold set_eqb. rewrite andb_true_iff, !forallb_forall. split.
+  - intros [H1 H2] x. split; intros H; apply mem_In; auto.
+  - intros H. split; intros x Hx; apply mem_In; apply H; exact Hx.
+Qed.
+
+(* If the recorded leaf answers are sound and the real backend's search answer agrees with the
+   model's, then the real answer is exactly the reference-semantics result. *)
+Theorem agree_search_exact univ ls f thres lim ii isr ier itrue :
+  forallb (leaf_ok univ ls) ls = true -> user_filter f = true ->
+  agree (CBe univ ls f thres lim ii isr ier itrue) = true ->
+  match isr with SErr => True | SOk r => set_eqb r (ref_result univ ls f) = true end.
+Proof.
+  intros Hl Hu Ha. cbn [agree] in Ha.
+  apply andb_true_iff in Ha as [Ha _]. apply andb_true_iff in Ha as [_ Hs].
+  pose proof (be_search_exact univ (sem_of ls) (orc_of ls) 0 (leaves_ok_sound univ ls Hl) lim f Hu) as Hex.
+  unfold tru in Hex.
+  destruct (be_search lim univ (fun id => ematch (sem_of ls id) f) (cand (orc_of ls) 0 f)) as [|r'];
+    destruct isr as [|r]; cbn [sres_eqb] in Hs; try discriminate Hs; [exact I|].
+  apply set_eqb_spec. intros x. apply set_eqb_spec with (x := x) in Hs. rewrite <- Hs, (Hex x).
+  unfold ref_result. rewrite filter_In. tauto.
+Qed.
